@@ -12,7 +12,7 @@ import (
 const seedMinimal = `{"swagger":"2.0","info":{"title":"t","version":"1"},"paths":{"/a":{"get":{"operationId":"g","responses":{"200":{"description":"ok"}}}}}}`
 
 const seedParams = `{"swagger":"2.0","info":{"title":"t","version":"1"},"consumes":["application/json"],"produces":["application/json"],
-"parameters":{"lim":{"name":"limit","in":"query","type":"integer","format":"int32","maximum":100,"default":10}},
+"parameters":{"lim":{"name":"limit","in":"query","type":"integer","format":"int32","maximum":100,"default":10},"hdr":{"name":"X-Trace","in":"header","type":"string"},"off":{"name":"offset","in":"query","type":"integer"},"pid":{"name":"pid","in":"path","required":true,"type":"string"},"srt":{"name":"sort","in":"query","type":"string","enum":["a","b"]},"frm":{"name":"upload","in":"formData","type":"file"}},
 "paths":{"/p/{id}":{"parameters":[{"name":"id","in":"path","required":true,"type":"string","pattern":"^[a-z]+$"}],
  "post":{"operationId":"p","parameters":[{"$ref":"#/parameters/lim"},{"name":"h","in":"header","type":"array","items":{"type":"string","enum":["a","b"]},"collectionFormat":"csv"},
    {"name":"body","in":"body","required":true,"schema":{"$ref":"#/definitions/Item"}}],
